@@ -743,7 +743,7 @@ def model_cell(v, kind):
         pts = v["roi"]
         return {"a": [fhex(float(x)) for p in pts for x in p], "shape": [len(pts), len(pts[0]) if pts else 0]}
     if "none" in v:
-        return {"a": [], "shape": [0, 0]}      # a None entry of a ragged column: empty array, not flagged (known finding)
+        return {"a": [], "shape": [0, 0]}      # a Python None in a ragged column (the converter no longer produces one)
     return v
 
 
@@ -829,9 +829,9 @@ def run(ck: common.Check):
     n_corpus = len(cases)
     nmax = 3 if ck.quick else 4
     cases += list(exhaustive(nmax))
-    for i in range(260 if ck.quick else 5000):
+    for i in range(260 if ck.quick else 3000):
         cases.append(random_case(ck.rng, big=(i % 7 == 0)))
-    for _ in range(60 if ck.quick else 800):
+    for _ in range(60 if ck.quick else 500):
         cases.append(malformed_case(ck.rng))
     ck.extra["corpus_cases"] = n_corpus
     ck.extra["exhaustive_upto_spots"] = nmax
